@@ -251,19 +251,31 @@ def run_check(prop, tier, verif_seed, replay_file=None, budget_override=None):
         cheap = [r for r in ok_recs if r.get("wall", 0) <= 6.0] or ok_recs
         if quantified_over_histories(prop) and len(cheap) >= 4 * nsel:
             cheap = cheap[len(cheap) // 2:]      # scenarios with a long history of earlier scenarios in their worker process
-        step = max(1, len(cheap) // nsel)
-        sel = cheap[::step][:nsel]
-        sout = os.path.join(rundir, "selftest.jsonl")
+        sel = select_for_selftest(cheap, nsel)
+        # re-run in up to four other processes (other hash salt), each serially
+        nproc = max(1, min(4, len(sel) // 4))
         env2 = worker_env(hashseed="4242")
-        rc, outp = run_wait(
-            {"mode": "explore", "property": prop, "tier": tier, "verif_seed": verif_seed,
-             "indices": [r["index"] for r in sel], "wall_s": 3600, "out": sout},
-            env2, timeout=1800)
-        recs2, done2 = read_jsonl(sout)
-        if rc != 0 or not done2:
-            log(outp[-3000:])
-            log(f"HARNESS-ERROR property={prop} determinism self-test run failed rc={rc}")
-            return 2
+        parts = []
+        for k in range(nproc):
+            sout = os.path.join(rundir, f"selftest{k}.jsonl")
+            lf = open(os.path.join(rundir, f"selftest{k}.log"), "wb")
+            parts.append((sout, lf, spawn(
+                {"mode": "explore", "property": prop, "tier": tier, "verif_seed": verif_seed,
+                 "indices": [r["index"] for r in sel[k::nproc]], "wall_s": 3600, "out": sout}, env2, stdout=lf)))
+        recs2 = []
+        for sout, lf, p in parts:
+            try:
+                rc = p.wait(timeout=1800)
+            except subprocess.TimeoutExpired:
+                p.kill()
+                rc = 124
+            lf.close()
+            r2, done2 = read_jsonl(sout)
+            recs2.extend(r2)
+            if rc != 0 or not done2:
+                log(open(lf.name, errors="replace").read()[-3000:])
+                log(f"HARNESS-ERROR property={prop} determinism self-test run failed rc={rc}")
+                return 2
         by = {r["index"]: r for r in recs2}
         for r in sel:
             r2 = by.get(r["index"])
@@ -356,6 +368,34 @@ def run_check(prop, tier, verif_seed, replay_file=None, budget_override=None):
     log(f"[{prop}] OK: {len(records)} scenarios, {sum(1 for r in records if r.get('nontrivial'))} non-trivial, "
         f"{corpus_run} corpus replays, determinism {det}, {wall_total:.0f}s")
     return 0
+
+
+def select_for_selftest(cands, nsel):
+    """Deterministic, coverage-guided choice of the scenarios to re-run: greedily the scenario that adds the most
+    (rarity-weighted) not yet covered reach / fault counters, so that every rare feature of the run (a forced grid, an
+    injected fault, a big plan, ...) is represented; ties go to the later scenario (longer process history)."""
+    if len(cands) <= nsel:
+        return list(cands)
+    freq = {}
+    for r in cands:
+        for k in (r.get("counters") or {}):
+            freq[k] = freq.get(k, 0) + 1
+    left = sorted(cands, key=lambda r: r["index"])
+    covered = set()
+    sel = []
+    while left and len(sel) < nsel:
+        best, best_gain = None, -1.0
+        for r in left:
+            gain = sum(1.0 / freq[k] for k in (r.get("counters") or {}) if k not in covered)
+            if gain >= best_gain:           # >= : the later one wins a tie
+                best, best_gain = r, gain
+        if best_gain <= 0.0 and covered:
+            covered = set()                 # everything covered once: start a second round
+            continue
+        sel.append(best)
+        covered.update((best.get("counters") or {}).keys())
+        left.remove(best)
+    return sorted(sel, key=lambda r: r["index"])
 
 
 def quantified_over_histories(prop):
